@@ -146,10 +146,20 @@ def run(ctx, repo, tier):
                         "cell's row", le.where, src(c)[:200], witness=f"header={hd}, names={'given' if names is not None else 'absent'}")
         else:
             ctx.ok("PAIRIO", "C20.xvg.header", "no line is consumed as a header (header=None or names given)", le.where)
-        name_var = names.id if isinstance(names, ast.Name) else None
-        defs = [n for n in ast.walk(le.node) if isinstance(n, ast.Assign) and isinstance(n.targets[0], ast.Name) and n.targets[0].id == name_var]
-        ctx.check(bool(defs) and "_get_column_names" in src(defs[0].value), "PAIRIO", "C20.xvg.names", "column names passed to the parser are "
-                  "the legends read from the same file", le.where, norm_stmt(defs[0]) if defs else src(names) if names is not None else "", witness="names do not come from _get_column_names()")
+        from ..astutil import Canon as _Canon
+        nexp = _Canon(_Canon.single_defs(le.node.body)).expand(names) if names is not None else None
+        if isinstance(nexp, ast.Call) and isinstance(nexp.func, ast.Attribute) and isinstance(nexp.func.value, ast.Name) and \
+                nexp.func.value.id == "self" and er.find_method(nexp.func.attr) is not None and \
+                any(isinstance(x, ast.JoinedStr) and "legend" in src(x) for x in ast.walk(er.find_method(nexp.func.attr).node)):
+            ctx.ok("PAIRIO", "C20.xvg.names", "column names passed to the parser are the legends read from the same file", le.where, src(nexp))
+        elif names is None:
+            ctx.violate("PAIRIO", "C20.xvg.names", "no column names are passed to the parser: columns are not labelled with the file's legends",
+                        le.where, src(c)[:160], witness="names= absent")
+        elif isinstance(nexp, (ast.List, ast.Tuple, ast.Constant)):
+            ctx.violate("PAIRIO", "C20.xvg.names", "column names are a fixed list, not the legends of the file that is read", le.where,
+                        src(nexp)[:120], witness="literal names")
+        else:
+            ctx.inconclusive("PAIRIO", "C20.xvg.names", "origin of the column names not recognised", le.where, witness=src(nexp)[:120])
         sep = const("sep")
         dw = const("delim_whitespace")
         ctx.check(sep in (r"\s+", " +", r"\s*") or dw is True, "PAIRIO", "C20.xvg.sep", "columns are split on runs of whitespace", le.where, witness=f"sep={sep!r}")
@@ -189,16 +199,27 @@ def run(ctx, repo, tier):
         ctx.check(pat == "@ s{} legend", "PAIRIO", "C20.legend.pattern", "a legend line is recognised by the prefix '@ s<i> legend'", gc.where,
                   src(sw[0])[:100] if sw else "", witness=repr(pat))
         app = [n for n in ast.walk(rng[0]) if isinstance(n, ast.Call) and isinstance(n.func, ast.Attribute) and n.func.attr == "append"]
-        okn = False
-        if app and isinstance(app[0].args[0], ast.Subscript):
-            s_ = app[0].args[0]
-            okn = isinstance(s_.slice, ast.UnaryOp) and isinstance(s_.slice.operand, ast.Constant) and s_.slice.operand.value == 2 or \
-                (isinstance(s_.slice, ast.Constant) and s_.slice.value in (-2, 1))
-            base = s_.value
-            bdefs = [n for n in ast.walk(gc.node) if isinstance(n, ast.Assign) and isinstance(n.targets[0], ast.Name) and isinstance(base, ast.Name) and n.targets[0].id == base.id]
-            okn = okn and bool(bdefs) and "split('\"')" in src(bdefs[0].value).replace('split("\\"")', "split('\"')")
-        ctx.check(okn, "PAIRIO", "C20.legend.text", "the column name is the text between the quotes of the legend line", gc.where,
-                  src(app[0])[:100] if app else "", witness="legend text is not the quoted part")
+        from ..astutil import Canon
+        cn = Canon(Canon.single_defs(gc.node.body))
+        verdict = None
+        if app and app[0].args:
+            e_ = cn.expand(app[0].args[0])
+            if isinstance(e_, ast.Subscript) and isinstance(e_.value, ast.Call) and isinstance(e_.value.func, ast.Attribute) and \
+                    e_.value.func.attr == "split" and len(e_.value.args) == 1 and isinstance(e_.value.args[0], ast.Constant) and \
+                    e_.value.args[0].value == '"':
+                ix = e_.slice
+                iv = ix.value if isinstance(ix, ast.Constant) else (-ix.operand.value if isinstance(ix, ast.UnaryOp) and isinstance(ix.op, ast.USub)
+                                                                    and isinstance(ix.operand, ast.Constant) else None)
+                if iv in (-2, 1):
+                    verdict = True
+                elif isinstance(iv, int):
+                    verdict = False
+        if verdict is None:
+            ctx.inconclusive("PAIRIO", "C20.legend.text", "extraction of the legend text not recognised", gc.where,
+                             witness=src(app[0])[:100] if app else "no append")
+        else:
+            ctx.check(verdict, "PAIRIO", "C20.legend.text", "the column name is the text between the quotes of the legend line", gc.where,
+                      src(app[0])[:100] if app else "", witness="the element taken from line.split('\"') is not the quoted part")
         # the list the legends are appended to is the one that is returned, and nothing re-orders it
         rets = [n.value for n in ast.walk(gc.node) if isinstance(n, ast.Return) and n.value is not None]
         ret_names = {r.id for r in rets if isinstance(r, ast.Name)}
